@@ -110,6 +110,9 @@ pub fn build(rng: &mut Rng, scale: usize, thorough: bool) -> Vec<Item> {
 		("fixed.bom_short", b"\xef\xbb\xbfa"),
 		// line breaks and blanks on which Rust's str methods and YAML disagree
 		("fixed.yaml_comment_cr", b"# c\ra: 1\r"),
+		("fixed.yaml_cr_indented_map", b"# c\r  a: 1\r  b: 2\r"),
+		("fixed.yaml_cr_indented_seq", b"# c\r  - a\r  - b\r"),
+		("fixed.yaml_nel_indented_map", b"# c\xc2\x85  a: 1\xc2\x85  b: 2\xc2\x85"),
 		("fixed.yaml_comment_nel", b"# c\xc2\x85a: 1\n"),
 		("fixed.yaml_comment_ls", b"# c\xe2\x80\xa8a: 1\n"),
 		("fixed.yaml_nbsp_line", b"\xc2\xa0\n"),
